@@ -6,11 +6,11 @@ import "strings"
 
 // C20 — require: loader runs at most once, cached identical value, loop detection, missing-module report.
 //
-//verif:harness prop=C20 tier=quick bounds="2 preloaded modules (m with one of 7 loader behaviours (returns a value / nothing / stores package.loaded itself / fails / requires itself / stores and returns different values / returns false), optionally required twice before its loader is registered, k returning a symbolic number) + host-registered module h; history of 3 requires: m, then a 1-byte symbolic name, then m again, then m after package.loaded.m = nil; Lua and Go loaders"
+//verif:harness prop=C20 tier=quick bounds="2 preloaded modules (m with one of 8 loader behaviours (returns a value / nothing / stores package.loaded itself / fails / requires itself / stores and returns different values / returns false / registers the module through RegisterModule), optionally required twice before its loader is registered, k returning a symbolic number) + host-registered module h; history of 3 requires: m, then a 1-byte symbolic name, then m again, then m after package.loaded.m = nil; Lua and Go loaders"
 func H_C20_require() {
 	L := newL(Options{}, LoadLibName, BaseLibName)
 	v, w := VFloat("v"), VFloat("w")
-	beh := VChoice(7)
+	beh := VChoice(8)
 	early := VChoice(2) == 1 // the module is required once before any loader for it exists
 	goLoader := VChoice(2) == 1
 	calls := 0
@@ -44,6 +44,10 @@ func H_C20_require() {
 		case 6:
 			// false is a value, but not one that marks the module as loaded (ll_require tests lua_toboolean)
 			L.Push(LFalse)
+			return 1
+		case 7:
+			// the loader registers the module itself (package.loaded[name] holds require's marker meanwhile)
+			L.Push(L.RegisterModule("m", map[string]LGFunction{"f": func(L *LState) int { return 0 }}))
 			return 1
 		}
 		return 0
@@ -102,13 +106,18 @@ func H_C20_require() {
 	if beh == 6 {
 		VAssert(e1 == nil && r1 == LFalse, "require: a loader returning false yields false")
 	}
+	if beh == 7 {
+		mt, isT := r1.(*LTable)
+		VAssert(e1 == nil && isT && mt.RawGetString("f") != LNil, "require: a loader that registers its module through RegisterModule yields the module table")
+		VAssert(L.GetGlobal("m") == r1, "require: a module registered by the host is reachable by its global name")
+	}
 	VAssert(calls == 1, "require: the loader ran once")
 	// step 2: a symbolic module name
 	name2 := VStr("name", 1)
 	r2, e2 := req(name2)
 	switch {
 	case name2 == "m":
-		if beh <= 2 || beh == 5 {
+		if beh <= 2 || beh == 5 || beh == 7 {
 			VAssert(e2 == nil && sameValue(r2, r1), "require: a later require returns the identical cached value")
 			VAssert(calls == 1, "require: the loader does not run again while it succeeded")
 		}
@@ -132,6 +141,17 @@ func H_C20_require() {
 	}
 	if beh == 6 {
 		VAssert(e3 == nil && r3 == LFalse && calls >= 2, "require: a module whose loader returned false is loaded again by the next require, through its preload entry")
+	}
+	// a name first loaded as a non-table (the loader returned nothing: true) and then registered by the host
+	if beh == 1 {
+		hm := L.RegisterModule("m", map[string]LGFunction{"g": func(L *LState) int { return 0 }})
+		ht, isT := hm.(*LTable)
+		VAssert(isT && ht.RawGetString("g") != LNil, "require: RegisterModule on a name whose loaded value is not a table creates the module")
+		VAssert(L.GetGlobal("m") == hm, "require: ... and publishes it under its global name")
+		r5, e5 := req("m")
+		VAssert(e5 == nil && r5 == hm, "require: ... and require returns it")
+		VReach("end")
+		return
 	}
 	// step 4: forced reload
 	if beh <= 1 {
@@ -166,14 +186,14 @@ func H_C20_missing() {
 
 // C20.missingdots — every dot of a module name is a directory separator in every path tried.
 //
-//verif:harness prop=C20 tier=quick bounds="module names of 5 symbolic bytes over {a, .} with a letter at both ends (all dot layouts incl. consecutive dots); package.path with 2 templates; os.Stat stubbed (no file exists)"
+//verif:harness prop=C20 tier=quick bounds="module names of 5 symbolic bytes over {a, ., %} with a letter at both ends (all dot layouts incl. consecutive dots); package.path with 2 templates; os.Stat stubbed (no file exists)"
 func H_C20_missingdots() {
 	L := newL(Options{}, LoadLibName, BaseLibName)
 	VAssert(L.DoString(`package.path = "./?.lua;./x/?.lua"`) == nil, "missingdots: set path")
 	nm := []byte(VStr("nm", 5))
 	want := make([]byte, 5)
 	for i, c := range nm {
-		VAssume(c == 'a' || c == '.')
+		VAssume(c == 'a' || c == '.' || c == '%')
 		if c == '.' {
 			want[i] = '/'
 		} else {
@@ -187,5 +207,6 @@ func H_C20_missingdots() {
 	VAssert(err != nil, "missingdots: a missing module is an error")
 	msg := err.Error()
 	VAssert(strings.Contains(msg, "./"+string(want)+".lua") && strings.Contains(msg, "./x/"+string(want)+".lua"), "missingdots: each template is tried with every dot of the name turned into a separator")
+	VAssert(strings.Contains(msg, "package.preload['"+string(nm)+"']"), "missingdots: the preload key is listed literally (also when the name contains a %)")
 	VReach("end")
 }
